@@ -1053,6 +1053,7 @@ class HtmlBlock(BlockToken):
     """
     _end_cond = None
     multiblock = re.compile(r'<(pre|script|style|textarea)[ >\n]', re.IGNORECASE)
+    literal_content_tag = re.compile(r'</?(pre|script|style|textarea)[\s/>]', re.IGNORECASE)
     predefined = re.compile(r'<\/?(.+?)(?:\/?>|[ \n])')
     custom_tag = re.compile(r'(?:' + '|'.join((span_token._open_tag,
                                 span_token._closing_tag)) + r')\s*$')
@@ -1098,7 +1099,7 @@ class HtmlBlock(BlockToken):
             return 6
         # rule 7: custom tags, read until newline
         match_obj = cls.custom_tag.match(stripped)
-        if match_obj is not None:
+        if match_obj is not None and not cls.literal_content_tag.match(stripped):
             cls._end_cond = None
             return 7
         return False
